@@ -254,11 +254,13 @@ impl C15 {
             let acc = accrued_of(s, a) * e18();
             let exp = self.expected.get(a).cloned().unwrap_or_default();
             let eps = self.eps.get(a).cloned().unwrap_or_default();
-            if acc > exp {
+            // (a contract may carry the sub-unit remainder of one update's division into the next: a holder can then be
+            // ahead of its exact share by less than a base unit per update - "within sub-unit rounding" cuts both ways)
+            if acc > exp + eps {
                 out.violation(P, "never_more_than_share", format!("{}: {} has accrued {} e-36 but its exact pro-rata share is {} e-36", when, a, acc, exp));
                 return;
             }
-            if exp - acc > eps {
+            if exp > acc && exp - acc > eps {
                 out.violation(P, "share_within_rounding", format!("{}: {} has accrued {} e-36, exact share {} e-36, shortfall {} above the truncation allowance {}", when, a, acc, exp, exp - acc, eps));
                 return;
             }
@@ -311,8 +313,11 @@ impl Monitor for C15 {
                 let paid = pre.prev_reward_balance - post.prev_reward_balance;
                 let e = self.expected.entry(user.clone()).or_default();
                 let sub = Uint512::from(paid) * e18() * e18();
+                let slack = self.eps.get(user).cloned().unwrap_or_default();
                 if *e >= sub {
                     *e -= sub;
+                } else if *e + slack >= sub {
+                    *e = Uint512::zero();
                 } else {
                     out.violation(P, "never_more_than_share", format!("{} claimed {} which exceeds its exact share {} e-36", user, paid, e));
                 }
